@@ -121,6 +121,15 @@ fn worker(mode: &str, shard: usize, nshards: usize, seed: u64, tier: &str, out: 
         "C17cmd" => m_text::worker_cmd(shard, nshards, seed, tier, out),
         "C14" => m_uci::worker_c14(shard, nshards, seed, tier, out),
         "C19" => m_uci::worker_c19(shard, nshards, seed, tier, out),
+        "replay" => {
+            let text = std::fs::read_to_string(&_extra[0]).expect("read replay file");
+            let v: Value = serde_json::from_str(&text).expect("replay json");
+            let prop = v["property"].as_str().unwrap_or("").to_string();
+            let case = if v["case"]["crash"] == true { v["case"]["case"].clone() } else { v["case"].clone() };
+            out.begin(&case);
+            replay(&prop, &case, out);
+            out.end();
+        }
         _ => usage(),
     }
 }
@@ -172,6 +181,37 @@ fn main() {
             let ops = m_mem::miri_workload(shard);
             println!("MIRI-OPS {ops}");
         }
+        "dbg-hist" => {
+            // debugging aid: replay a history witness, then show the table's view of the last root
+            let text = std::fs::read_to_string(&args[2]).expect("read");
+            let v: Value = serde_json::from_str(&text).expect("json");
+            let steps: Vec<m_search::HStep> = v["case"]["steps"].as_array().unwrap().iter().filter_map(m_search::HStep::from_json).collect();
+            let mut table = m_search::new_table();
+            let dir = par::make_workdir("dbg");
+            let mut out = par::Out::open(dir.join("x.res").to_str().unwrap());
+            for (i, st) in steps.iter().enumerate() {
+                let g = st.root.game().unwrap();
+                if i + 1 == steps.len() {
+                    for d in 1..=st.limit.unwrap_or(1) {
+                        let mut ms = arrayvec::ArrayVec::<chess::move_struct::Move, 256>::new();
+                        let mut g2 = g.clone();
+                        g2.get_moves(&mut ms, true);
+                        for m in ms.iter() {
+                            let mut t2 = table.clone();
+                            let mut g3 = g.clone();
+                            g3.push(*m);
+                            let flag = std::sync::atomic::AtomicBool::new(true);
+                            let mut h = [0u16; 768];
+                            let r = if d > 1 { search::get_best_move_entry(g3.clone(), &flag, d - 1, &mut t2, &mut h) } else { None };
+                            eprintln!("depth {d}: after {} child search (depth {}) -> {:?} | table entry for child: {:?}", m.uci_notation(), d - 1, r.map(|x| (x.0.map(|m| m.uci_notation()), x.1)), table.get(&g3.hash()));
+                        }
+                        eprintln!("root entry: {:?}", table.get(&g.hash()));
+                    }
+                }
+                let r = m_search::search(&mut out, &g, &mut table, st.limit, st.stop_at, 3_000_000, true);
+                eprintln!("step {i}: {:?} limit {:?} -> {:?} scores {:?}", st.root.json(), st.limit, r.result_text(), r.score_lines);
+            }
+        }
         "run" => {
             if args.len() < 5 {
                 usage();
@@ -198,15 +238,32 @@ fn main() {
             let v: Value = serde_json::from_str(&text).expect("replay json");
             let prop = v["property"].as_str().unwrap_or("").to_string();
             println!("replay of {prop}: {}", v["message"]);
-            let dir = par::make_workdir("replay");
-            // the engine's own stdout is needed by some replays: route it through a file
-            let tmp = dir.join("replay.res");
-            let mut out = par::Out::open(tmp.to_str().unwrap());
-            let case = if v["case"]["crash"] == true { v["case"]["case"].clone() } else { v["case"].clone() };
-            replay(&prop, &case, &mut out);
-            let n = out.viols;
-            out.done();
-            let _ = std::fs::remove_dir_all(&dir);
+            // the replay runs in a worker subprocess like the original case did: the engine's
+            // stdout (fd 1) is a file the monitor reads back, and a crash kills the worker only
+            let agg = par::run_workers("replay", "quick", v["seed"].as_u64().unwrap_or(1), 1, &[args[2].clone()],
+                std::time::Duration::from_secs(1800), None, &[]);
+            if let Ok(text) = std::fs::read_to_string(agg.workdir.join("w0.out")) {
+                let lines: Vec<&str> = text.lines().collect();
+                if lines.len() > 120 {
+                    println!("... ({} earlier lines of engine/replay output omitted)", lines.len() - 120);
+                }
+                for l in &lines[lines.len().saturating_sub(120)..] {
+                    println!("{l}");
+                }
+            }
+            let mut n = 0;
+            for vv in &agg.viols {
+                n += 1;
+                println!("VIOLATION (replay) {}: {}", vv["prop"].as_str().unwrap_or(""), vv["msg"].as_str().unwrap_or(""));
+            }
+            for c in &agg.crashes {
+                n += 1;
+                println!("CRASH (replay) {}: {}", c.exit, c.stderr_tail.replace('\n', " / "));
+            }
+            for t in &agg.timeouts {
+                println!("TIMEOUT (replay): {t}");
+            }
+            let _ = std::fs::remove_dir_all(&agg.workdir);
             println!("replay observed {n} violation(s)");
             std::process::exit(if n > 0 { 1 } else { 0 });
         }
